@@ -116,6 +116,14 @@ def run_property(pid, tier, seed):
                 ctx.proof_broken.append({"what": "axiom audit failed", "theorem": n, "axioms": a})
             thm_info.append({"name": n, "module": m, "checked": good, "axioms": a,
                              "partial": n.endswith("_partial")})
+    # 3b. thorough tier: independent re-check of the compiled theorem modules
+    rechecked = None
+    if ctx.thorough and not ctx.proof_broken and theorem_names:
+        ok, out, cmd = common.leanchecker(sorted(theorem_names))
+        cmds.append(cmd)
+        rechecked = ok
+        if not ok:
+            ctx.proof_broken.append({"what": "leanchecker rejects a compiled theorem module", "log": out})
     # 4. forbidden constructs anywhere in the Lean sources
     hits = common.grep_forbidden(common.lean_sources())
     if hits:
@@ -163,6 +171,7 @@ def run_property(pid, tier, seed):
         "samples": ctx.samples or ["(no correspondence lines were run)"],
         "exhaustive": bool(getattr(ctx, "exhaustive", False)),
         "known_findings": [{"id": k["id"], "reproduced": k["id"] in ctx.rep.known_hits} for k in ctx.rep.known],
+        "leanchecker": rechecked,
         "proof_broken": ctx.proof_broken,
         "tie_broken": ctx.tie_broken[:5],
     }
